@@ -403,6 +403,13 @@ func (r *result) adjustDevices(devices []*LinuxDevice, plugin string) error {
 		r.reply.adjust.Linux.Devices = append(r.reply.adjust.Linux.Devices, d)
 	}
 
+	// next, apply deletions with no corresponding additions
+	for _, d := range del {
+		if _, ok := mod[api.ClearRemovalMarker(d.Path)]; !ok {
+			r.reply.adjust.Linux.Devices = append(r.reply.adjust.Linux.Devices, d)
+		}
+	}
+
 	// finally, apply additions/modifications to plugin container creation request
 	create.Container.Linux.Devices = append(create.Container.Linux.Devices, add...)
 
@@ -448,11 +455,11 @@ func (r *result) adjustEnv(env []*KeyValue, plugin string) error {
 
 	// first split removals from the rest of adjustments
 	add := []*KeyValue{}
-	del := map[string]struct{}{}
+	del := map[string]*KeyValue{}
 	mod := map[string]struct{}{}
 	for _, e := range env {
 		if key, marked := e.IsMarkedForRemoval(); marked {
-			del[key] = struct{}{}
+			del[key] = e
 		} else {
 			add = append(add, e)
 			mod[key] = struct{}{}
@@ -490,6 +497,13 @@ func (r *result) adjustEnv(env []*KeyValue, plugin string) error {
 			return err
 		}
 		r.reply.adjust.Env = append(r.reply.adjust.Env, e)
+	}
+
+	// next, apply deletions with no corresponding additions
+	for key, e := range del {
+		if _, ok := mod[key]; !ok {
+			r.reply.adjust.Env = append(r.reply.adjust.Env, e)
+		}
 	}
 
 	// finally, apply additions/modifications to plugin container creation request
